@@ -87,7 +87,7 @@ Arguments coroutine : clear implicits.
     bound at that moment).  Sources are not modified while the renders run. *)
 Definition load_seg (c : cfg) (name : str) (ns : option str) (g : N) (a : bool)
   : segment (list obs) st :=
-  fun p s => let '(o, s') := cached_load c s name ns g a in (p ++ [o], s').
+  fun p s => let '(o, s') := cached_load c s name ns g a true in (p ++ [o], s').
 
 Record load_call := { lc_name : str; lc_ns : option str; lc_g : N; lc_async : bool }.
 
